@@ -4,6 +4,10 @@ import json
 props=[json.loads(l) for l in open('properties.jsonl')]
 TRUST="Trusted base: the Go type checker/SSA builder of x/tools v0.29.0; the std functions on the allow-lists behave as documented; exported operations receive values produced by the repo's constructors."
 claimed={
+'C18':dict(technique="static analysis: value-flow (taint) rules on SSA, interprocedural",
+ text="All three clauses are flow facts decided for all 40 constructors and String() methods: the stored text is the parameter through nothing but TrimSpace; the untrimmed parameter reaches only TrimSpace, the text field, an emptiness test and messages; possibly-untrimmed text is never read from Compare's operands or Contains' probe. Sufficient-style rules with the accepted idioms enumerated; any other use is reported with its position.",
+ note=TRUST+" Re-parse stability additionally relies on C19 (determinism). Internal whitespace handling inside range strings is not part of this property.",
+ design="DESIGN.md 5 (C18)"),
 'C02':dict(technique="static analysis: abstract tabulation of each matching predicate over (operator, sign of Compare); table/regexp prefix-safety; parse-side operator domains vs match-side cases",
  text="The operator semantics of all 20 ecosystems are decided exactly: the matching predicate is tabulated by the abstract evaluator over the operator strings it tests and the sign of Compare(probe, bound) and compared with the fixed operator table, orientation included; operator tables and ordered regexp alternations are prefix-safe; every operator the parser can store (computed from its construction sites) has a case. This covers every bound/probe pair at once because the predicate touches them only through Compare.",
  note=TRUST+" Not decided: tokenisation of exotic bounds, deferred bound validation (npm, golang, gem, alpine, pypi re-parse the bound in matches), AND/OR quantifier shape (planned R-QUANT), pre-operator routing (npm/composer 'x').",
